@@ -38,5 +38,7 @@ pub fn run(tier: &str, seed: u64, only: Option<&str>) -> Run {
             Err(e) => run.fail("oracle:prepare", "", &c.id, e, c.text.clone()),
         }
     }
+    // native osu!mania end to end against Model/PipelineMania.lean (PIPE lines)
+    crate::pipe::run(&mut run, tier, seed, only);
     run
 }
